@@ -408,6 +408,24 @@ func (dsc *Discipline[Type]) waitCalcTactic() error {
 		}
 
 		dsc.getOneFeedback()
+
+		// if the discipline is being stopped, feedback may never come: leave with
+		// an empty tactic (nothing will be sent) and let the main loop terminate
+		if dsc.isStopped() {
+			dsc.resetTactic()
+			return nil
+		}
+	}
+}
+
+func (dsc *Discipline[Type]) isStopped() bool {
+	select {
+	case <-dsc.breaker.IsBreaked():
+		return true
+	case <-dsc.opts.Ctx.Done():
+		return true
+	default:
+		return false
 	}
 }
 
